@@ -1,5 +1,6 @@
 /* drv_persist.c -- driver for C17: observe persistence across a process kill at any stdio / rename call.
  *
+ * (optional 7th argument: number of operations of the history that precede this process, see checks/persist.py)
  * usage: drv_persist <dir> <port> <script> <trace (appended)> <kill>
  *        kill: 0 = run to the end; +n = _exit right AFTER the n-th stdio call of the persistence code; -n = right BEFORE it
  * script:
@@ -25,6 +26,8 @@ static FILE *tracked[64];
 static int ntracked;
 static uint16_t cmid = 1;
 static int opno;
+static void *perturb[512];          /* the blocks are deliberately kept until exit */
+static unsigned nperturb;
 
 FILE *__real_fopen(const char *path, const char *mode);
 int __real_fclose(FILE *f);
@@ -231,9 +234,10 @@ int main(int argc, char **argv) {
   if (sim_trace) setvbuf(sim_trace, NULL, _IOLBF, 0);
   kill_at = atol(argv[5]);
   if (argc > 6) freq = atoi(argv[6]);
+  if (argc > 7) opno = atoi(argv[7]);           /* a later generation of the history: operations before this process, the restart included */
   if (!in || !sim_trace) return 2;
   coap_startup();
-  coap_set_log_level(COAP_LOG_EMERG);
+  coap_set_log_level(getenv("DRV_DEBUG") ? COAP_LOG_DEBUG : COAP_LOG_EMERG);
   coap_set_prng(prng);
   sim_hooks.on_peer_rx = on_peer_rx;
   sim_trace_io = 0;
@@ -250,6 +254,14 @@ int main(int argc, char **argv) {
   ur = coap_resource_unknown_init2(hnd_put_unknown, 0);
   coap_add_resource(ctx, ur);
   snprintf(p1, sizeof(p1), "%s/dyn", dir); snprintf(p2, sizeof(p2), "%s/obs", dir); snprintf(p3, sizeof(p3), "%s/cnt", dir);
+  if (opno > 0) ev("{\"e\":\"Op\",\"j\":%d,\"k\":\"restart\",\"name\":\"\"}\n", opno);     /* the restart is an operation of the history */
+  {
+    /* a restarted process does not get the addresses its predecessor had (the persisted observe keys are subscription pointers) */
+    static const size_t szs[] = {24, 32, 48, 64, 80, 96, 112, 128, 160, 192, 224, 256, 320, 384, 512, 640, 768, 1024};
+    unsigned i, k;
+    for (k = 0; k < sizeof(szs) / sizeof(szs[0]); k++)
+      for (i = 0; i < (unsigned)(opno % 7 + (opno ? 1 : 0)); i++) if (nperturb < 512) perturb[nperturb++] = malloc(szs[k]);
+  }
   ev("{\"e\":\"Start\",\"kill\":%ld,\"freq\":%d}\n", kill_at, freq);
   coap_persist_startup(ctx, p1, p2, p3, (uint32_t)freq);
   sim_run(sim_now + 20);
@@ -300,6 +312,7 @@ int main(int argc, char **argv) {
     }
   }
   ev("{\"e\":\"Finished\",\"calls\":%ld}\n", ncall);
+  coap_persist_stop(ctx);             /* a clean shutdown leaves the persisted state in the files */
   sim_remove_node(ctx);
   coap_free_context(ctx);
   coap_cleanup();
